@@ -303,6 +303,17 @@ where
     }
 }
 
+/// Verification hook: run the crate-private protocol sniffer on `io` and return whether it
+/// chose HTTP/2 together with the rewound stream.
+#[cfg(feature = "verif-hooks")]
+pub async fn verif_read_version<I>(io: I) -> io::Result<(bool, Rewind<I>)>
+where
+    I: Read + Unpin,
+{
+    let (version, rewind) = ReadVersion::new(io).await?;
+    Ok((version == HttpProtocol::Http2, rewind))
+}
+
 #[cfg(test)]
 mod tests {
 
